@@ -95,6 +95,19 @@ var c03Ctx = []string{
 	"return (%F) < (%G) && (%H) >= (%F);",
 	"x = 1.5 + %F; return x * %G;",
 	"return \"a\" + string(%F) + string(%G);",
+	// returns in one branch only, so that jumps over / past a return matter
+	"if (%F) { x = 1; } else { return %G; } return x;",
+	"if (%F) { return %G; } else { x = 2; } return x;",
+	"if (%F) { x = 1; } else { if (C1) { return %G; } x = 3; } return x + %H;",
+	"if (%F) { if (%G) { x = 1; } else { return 7; } } else { return 8; } return x;",
+	"if (%F) { x = 1; } else if (%G) { return 2; } else { x = 3; } return x;",
+	"function f() { if (%F) { y = 1; } else { return %G; } return y; } return f();",
+	"function f(a) { if (%F) { return a; } else { y = 2; } return y + %G; } return f(%H);",
+	"x = 0; while (%F) { x = 1; return x + %G; } return x;",
+	"switch (%F) { case %G { x = 1; } default { return 9; } } return x;",
+	"switch (%F) { case %G { return 1; } default { x = 2; } } return x + 1;",
+	"x = %F ? 1 : 2; if (%G) { y = x; } else { return x; } return y + %H;",
+	"foreach e in [1] { if (%F) { x = e; } else { return %G; } } return x;",
 }
 
 func c03(c *ev.Ctx) {
